@@ -64,6 +64,8 @@ type c33Node struct {
 	barrier int
 	net     *memberlist.MockNetwork
 	fakes   int
+	bigs    []string
+	logw    *c33Log
 }
 
 // addFakes makes the node believe in k more alive protocol-5 members (through the memberlist event
@@ -152,6 +154,61 @@ func (n *c33Node) drainBroadcasts() []int {
 	return first
 }
 
+// c33Log collects the node's log lines (the internal query handlers report a refused answer only there).
+type c33Log struct {
+	mu  sync.Mutex
+	buf []byte
+}
+
+func (l *c33Log) Write(p []byte) (int, error) {
+	l.mu.Lock()
+	l.buf = append(l.buf, p...)
+	l.mu.Unlock()
+	return len(p), nil
+}
+
+func (l *c33Log) reset() {
+	l.mu.Lock()
+	l.buf = nil
+	l.mu.Unlock()
+}
+
+// settled: a handler said it could not answer (terminal log lines of internal_query.go)
+func (l *c33Log) settled() bool {
+	l.mu.Lock()
+	defer l.mu.Unlock()
+	t := string(l.buf)
+	return strings.Contains(t, "Failed to respond") || strings.Contains(t, "Failed to truncate") ||
+		strings.Contains(t, "Failed to encode") || strings.Contains(t, "Failed to decode")
+}
+
+// responses: the query-response (type 5, not an ack) and relay (type 9) messages among the recorded packets
+func c33Responses(pkts [][]byte) []int {
+	var lens []int
+	for _, p := range pkts {
+		if len(p) == 0 {
+			continue
+		}
+		if p[0] == 9 {
+			lens = append(lens, len(p))
+		}
+		if p[0] == 5 {
+			var r serf.VerifMsgQueryResponse
+			if err := serf.VerifDecodeMessage(p[1:], &r); err == nil && r.Flags&1 != 0 {
+				continue // an ack: carries no payload, not size-checked, not a response in the sense of C33
+			}
+			lens = append(lens, len(p))
+		}
+	}
+	return lens
+}
+
+func (t *c33Transport) peek() [][]byte {
+	t.mu.Lock()
+	defer t.mu.Unlock()
+	return append([][]byte{}, t.user...)
+}
+
 func c33Lens(l []int) string {
 	if len(l) == 0 {
 		return "-"
@@ -204,7 +261,8 @@ func c33Exec(ops []string) []string {
 			conf := serf.DefaultConfig()
 			conf.Init()
 			conf.NodeName = name
-			conf.LogOutput = io.Discard
+			logw := &c33Log{}
+			conf.LogOutput = logw
 			conf.UserEventSizeLimit = ue
 			conf.QuerySizeLimit = q
 			conf.QueryResponseSizeLimit = r
@@ -220,7 +278,7 @@ func c33Exec(ops []string) []string {
 				outs = append(outs, "create-err")
 				continue
 			}
-			node = &c33Node{s: s, conf: conf, tr: tr, eventCh: ch, net: mnet}
+			node = &c33Node{s: s, conf: conf, tr: tr, eventCh: ch, net: mnet, logw: logw}
 			node.sync()
 			node.drainBroadcasts()
 			node.tr.take()
@@ -230,6 +288,112 @@ func c33Exec(ops []string) []string {
 		case len(f) == 1 && f[0] == "env":
 			ln := node.s.Memberlist().LocalNode()
 			outs = append(outs, fmt.Sprintf("%s %d", hexb(ln.Addr), ln.Port))
+		case len(f) == 2 && f[0] == "bigmember":
+			// one more alive member whose record is large: tags {t: xxx…} of the given length
+			n, err := strconv.Atoi(f[1])
+			if err != nil || n < 0 || n > 2000 {
+				outs = append(outs, "bad-op")
+				continue
+			}
+			name := fmt.Sprintf("big-%d", len(node.bigs)+1)
+			tr := node.net.NewTransport(name)
+			go func() {
+				for range tr.PacketCh() {
+				}
+			}()
+			ip, port, _ := tr.FinalAdvertiseAddr("", 0)
+			meta := serf.VerifEncodeTags(5, map[string]string{"t": strings.Repeat("x", n)})
+			node.conf.MemberlistConfig.Events.NotifyJoin(&memberlist.Node{Name: name, Addr: ip, Port: uint16(port), Meta: meta,
+				PMin: 1, PMax: 5, PCur: 2, DMin: 2, DMax: 5, DCur: 5})
+			node.bigs = append(node.bigs, name)
+			node.fakes++
+			node.sync()
+			node.drainBroadcasts()
+			node.tr.take()
+			outs = append(outs, fmt.Sprintf("ok %d", port))
+		case len(f) == 4 && f[0] == "iquery":
+			// an INTERNAL query issued on the node itself: its own handler answers it through the same
+			// respondWithMessageAndResponse as every other response
+			var qname string
+			var payload []byte
+			switch f[1] {
+			case "conflict":
+				k, err := strconv.Atoi(f[2])
+				if err != nil || k < 1 || k > len(node.bigs) {
+					outs = append(outs, "bad-op")
+					continue
+				}
+				qname, payload = "_serf_conflict", []byte(node.bigs[k-1])
+			case "installkey":
+				qname, payload = "_serf_install-key", []byte{7, 0x80} // messageKeyRequestType + an empty keyRequest
+			case "listkeys":
+				qname = "_serf_list-keys"
+			case "ping":
+				qname = "_serf_ping"
+			default:
+				outs = append(outs, "bad-op")
+				continue
+			}
+			node.sync()
+			node.drainBroadcasts()
+			node.tr.take()
+			node.logw.reset()
+			_, err := node.s.Query(qname, payload, &serf.QueryParam{RequestAck: f[3] == "t", Timeout: time.Hour})
+			if err != nil {
+				if strings.Contains(err.Error(), "exceeds limit") {
+					outs = append(outs, "err-size sent=-")
+				} else {
+					outs = append(outs, "err-other")
+				}
+				node.sync()
+				node.drainBroadcasts()
+				continue
+			}
+			msgs := node.conf.MemberlistConfig.Delegate.GetBroadcasts(0, 1<<30)
+			node.drainBroadcasts()
+			sentLen, idw := 0, 0
+			for _, m := range msgs {
+				var q serf.VerifMsgQuery
+				if len(m) > 0 && m[0] == 4 && serf.VerifDecodeMessage(m[1:], &q) == nil {
+					sentLen = len(m)
+					switch {
+					case q.ID < 128:
+						idw = 1
+					case q.ID < 256:
+						idw = 2
+					case q.ID < 65536:
+						idw = 3
+					default:
+						idw = 5
+					}
+				}
+			}
+			resp := "none"
+			if f[1] != "ping" {
+				deadline := time.Now().Add(5 * time.Second)
+				for {
+					if len(c33Responses(node.tr.peek())) > 0 {
+						resp = "sent"
+						break
+					}
+					if node.logw.settled() {
+						resp = "refused"
+						break
+					}
+					if time.Now().After(deadline) {
+						resp = "env-error"
+						break
+					}
+					time.Sleep(200 * time.Microsecond)
+				}
+			}
+			if resp == "env-error" {
+				outs = append(outs, "env-error")
+				continue
+			}
+			node.sync()
+			lens := c33Responses(node.tr.take())
+			outs = append(outs, fmt.Sprintf("ok sent=%d idw=%d resp=%s pkts=%s", sentLen, idw, resp, c33Lens(lens)))
 		case len(f) == 2 && f[0] == "members":
 			k, err := strconv.Atoi(f[1])
 			if err != nil || k < 0 || k > 8 {
@@ -326,12 +490,7 @@ func c33Exec(ops []string) []string {
 			}
 			node.tr.take()
 			err := node.pending.Respond(pl)
-			var lens []int
-			for _, p := range node.tr.take() {
-				if len(p) > 0 && (p[0] == 5 || p[0] == 9) {
-					lens = append(lens, len(p))
-				}
-			}
+			lens := c33Responses(node.tr.take())
 			switch {
 			case err == nil:
 				node.pending = nil
@@ -526,6 +685,50 @@ func c33GenCases(rng *rand.Rand, tier string) []Case {
 		}
 		out = append(out, Case{ID: fmt.Sprintf("n%d", i), Ops: ops, Nontrivial: nt, Tags: []string{fmt.Sprintf("ue%d", ue)}})
 	}
+	// internal queries (_serf_conflict about a member with a large record, install-key, list-keys, ping) on nodes
+	// with small response limits: their answers pass through the same size check as every other response
+	nInt := n / 3
+	for i := 0; i < nInt; i++ {
+		r := []int{60, 100, 200, 300, 600, 1024}[rng.Intn(6)]
+		nameLen := []int{1, 5, 31, 32}[rng.Intn(4)]
+		nodeName := strings.Repeat("N", nameLen)
+		ops := []string{fmt.Sprintf("cfg 512 1024 %d %d", r, nameLen), "env"}
+		// the conflict answer about big-1 with tag length t, wrapped into the response: aim it at the limit
+		answer := func(t int) int {
+			m := serf.Member{Name: "big-1", Addr: make([]byte, 16), Port: 2, Tags: map[string]string{"t": strings.Repeat("x", t)}, Status: serf.StatusAlive,
+				ProtocolMin: 1, ProtocolMax: 5, ProtocolCur: 2, DelegateMin: 2, DelegateMax: 5, DelegateCur: 5}
+			buf, _ := serf.VerifEncodeMessage(6, &m, false)
+			return c33RespEnc(1, nodeName, buf)
+		}
+		t := 0
+		switch rng.Intn(3) {
+		case 0:
+			t = rng.Intn(500)
+		default:
+			for answer(t) < r-4+rng.Intn(9) && t < 1500 {
+				t++
+			}
+		}
+		ops = append(ops, fmt.Sprintf("bigmember %d", t))
+		if rng.Intn(3) == 0 {
+			ops = append(ops, fmt.Sprintf("bigmember %d", rng.Intn(400)))
+		}
+		k := 2 + rng.Intn(4)
+		for j := 0; j < k; j++ {
+			ack := []string{"t", "f"}[rng.Intn(2)]
+			switch rng.Intn(6) {
+			case 0, 1, 2:
+				ops = append(ops, fmt.Sprintf("iquery conflict %d %s", 1+rng.Intn(strings.Count(strings.Join(ops, " "), "bigmember")), ack))
+			case 3:
+				ops = append(ops, "iquery installkey _ "+ack)
+			case 4:
+				ops = append(ops, "iquery listkeys _ "+ack)
+			default:
+				ops = append(ops, "iquery ping _ "+ack)
+			}
+		}
+		out = append(out, Case{ID: fmt.Sprintf("int%d", i), Ops: ops, Nontrivial: true, Tags: []string{"internal-query"}})
+	}
 	// Create's own cap on the configured limit
 	for _, ue := range []int{9215, 9216, 9217, 20000} {
 		out = append(out, Case{ID: fmt.Sprintf("create-%d", ue), Ops: []string{fmt.Sprintf("cfg %d 1024 1024 4", ue), "env", "event 3 9210 f", "event 3 9214 f", "event 1 9170 f", "event 1 9185 f", "event 1 9180 t", "event 0 9182 t"},
@@ -538,7 +741,7 @@ func init() {
 	register(&Prop{
 		ID: "C33",
 		Rule: "one real node per case with limits from {0,1,30,64,512,1024,9215,9216} (or random) × query/response limits {0,40,100,200,1024,4000} × node name lengths {0,1,5,31,32,40}; 6-13 operations: user events with name+payload within ±3 of the configured limit, of 9216 and of the point where the encoded form crosses the limit (name lengths at 31/32/255/256, nil payloads), remote events moving the event clock to 1/2/3/5/9-byte Lamport times, queries with the encoded size within ±3..12 of the limit (filters, relay factor, ack, timeouts at int8/int16/int64 widths), responses within ±3..8 of the response limit incl. a second response; " +
-			"half of the cases with 1-2 fake alive members (relay targets) and relay factors 0/1/2/255, responses aimed at the point where the RELAYED copy crosses the limit; observed: returned error class, EventCh, broadcast queues (GetBroadcasts), response and relay packets written to the transport; non-trivial = the case contains an event, query or response; distinct = distinct op sequence",
+			"half of the cases with 1-2 fake alive members (relay targets) and relay factors 0/1/2/255, responses aimed at the point where the RELAYED copy crosses the limit; internal queries (_serf_conflict about members whose record is aimed at the response limit ±4, install-key, list-keys, ping) under response limits 60..1024; observed: returned error class, EventCh, broadcast queues (GetBroadcasts), response and relay packets written to the transport; non-trivial = the case contains an event, query or response; distinct = distinct op sequence",
 		Gen:  c33GenCases,
 		Exec: c33Exec,
 	})
